@@ -261,8 +261,8 @@ func c18r4(c *Check) {
 			return []string{"shutdown"}
 		}
 		return nil
-	}, Branch: func(ifi *ssa.If, taken bool) []string {
-		if keyEq(ifi.Cond) && taken {
+	}, Branch: func(ifi *ssa.If, cond ssa.Value, taken bool) []string {
+		if keyEq(cond) && taken {
 			return []string{"found"}
 		}
 		return nil
